@@ -107,7 +107,7 @@ CLAIMED["C05"] = dict(
 CLAIMED["C08"] = dict(
     text="The dtype->kind table of both materializers is regenerated from /repo each run (one Series per dtype through the real _is_categorical); Coq "
          "proves over it that text and categorical dtypes are categorical and numeric dtypes (incl. bool) numerical for both materializers, and that "
-         "the build model encodes categoricals as 0/1 indicators in sorted/declared level order and passes numerics through. Numeric cells, level "
+         "the build model encodes categoricals as 0/1 indicators in sorted/declared level order (proved: the levels of a text column are exactly its non-null values, strictly increasing in code-point order with a proper prefix first; a declared list is kept as is) and passes numerics through. Numeric cells, level "
          "order and pass-through are checked for every dtype x output x {pandas, narwhals/pandas, narwhals/arrow}.",
     note="Coq kernel + vm_compute; pandas/narwhals dtype predicates are library behaviour captured in the regenerated oracle table",
     technique="finite-domain Coq proof over a regenerated dtype table + build-model correspondence + exhaustive dtype sweep on the implementation",
